@@ -114,6 +114,7 @@ def spec_no_reuse(draw, **kw):
     def script(m, n_min, n_max, **k2):
         ops = []
         moved_away = set()      # paths vacated by a RENAME in this script
+        deleted = set()         # paths vacated by a DELETE in this script
         for _ in range(draw(st.integers(n_min, n_max))):
             op = tm.draw_op(draw, m, ids, **dict(opkw, **k2))
             if op is None:
@@ -130,8 +131,18 @@ def spec_no_reuse(draw, **kw):
                     # revision (swap, rename chain, rename + add): excluded
                     skipped[0] += 1
                     continue
+                if op[0] == "rename" and dest in deleted and \
+                        m[op[1]]["kind"] == "directory":
+                    # a DIRECTORY renamed onto a path deleted in the same
+                    # revision: excluded (own root cause, own shape)
+                    skipped[0] += 1
+                    continue
             if op[0] == "rename":
                 moved_away.add(tm.path_of(m, op[1]))
+            if op[0] == "delete":
+                deleted.add(tm.path_of(m, op[1]))
+                for dsc in tm.descendants(m, op[1]):
+                    deleted.add(tm.path_of(m, dsc))
             tm.apply_op(m, op)
             ops.append(op)
         return ops
